@@ -567,7 +567,7 @@ func (c c07) ParentPhase(env *kernel.Env) kernel.PhaseResult {
 	for _, ref := range progs {
 		byName[ref.Name] = ref
 	}
-	for _, tw := range [][2]string{{"routes3", "routes4"}, {"routes4", "routes3"}} {
+	for _, tw := range [][2]string{{"routes3", "routes4"}, {"routes4", "routes3"}, {"enumsib", "othermod"}, {"othermod", "kinds"}} {
 		a, okA := byName[tw[0]]
 		b, okB := byName[tw[1]]
 		if okA && okB {
@@ -612,6 +612,44 @@ func (c c07) ParentPhase(env *kernel.Env) kernel.PhaseResult {
 		}
 	}
 	res.Coverage["fresh_processes_after_another_program"] = afterRuns
+	// the files of a multi-file program generated in reverse order, in a process
+	// of its own: per-file outputs as in the given order
+	reversedRuns := 0
+	for _, ref := range progs {
+		files := progFiles(env, ref)
+		if len(files) < 2 || ref.Kind == "repo" {
+			continue
+		}
+		dir := progDir(env, ref)
+		if d, ok := wsDir[ref.Name]; ok {
+			dir = d
+		}
+		cmd := exec.Command(fresh, append([]string{dir}, files...)...)
+		cmd.Env = append(perturbedEnv(0, 4, ws, scr), "C07_REVERSE=1")
+		b, err := cmd.Output()
+		if err != nil {
+			kernel.Harnessf("fresh process for %s (reverse order) failed: %v", ref.Name, err)
+		}
+		var got map[string]string
+		if jerr := json.Unmarshal(b, &got); jerr != nil {
+			kernel.Harnessf("fresh process for %s (reverse order): %v", ref.Name, jerr)
+		}
+		reversedRuns++
+		given := byProg[ref.Name][0].out
+		for _, name := range gen.Names(got) {
+			if strings.HasPrefix(name, "dart") || given[name] == got[name] {
+				continue // (dart: one output for the whole list, in the order given)
+			}
+			v := kernel.Violation{Property: "C07", Clause: "output_depends_on_what_was_generated_before", Signature: targetOf(name),
+				Detail: fmt.Sprintf("program %s/%s output %s: sha256 prefix %s when the files are generated in the order %v, %s in a process that generates them in reverse order", ref.Kind, ref.Name, name, given[name], files, got[name])}
+			path := filepath.Join(kernel.ReplayDir(env), fmt.Sprintf("C07-reverse-%s.json", ref.Name))
+			jb, _ := json.MarshalIndent(map[string]any{"violation": v, "command": fmt.Sprintf("C07_REVERSE=1 c07fresh %s %s   (compare with the same command without C07_REVERSE)", dir, strings.Join(files, " "))}, "", " ")
+			os.WriteFile(path, jb, 0o644)
+			res.Violations = append(res.Violations, kernel.Found{V: v, File: path, Case: kernel.Case{Index: 1<<30 + 4}})
+			break
+		}
+	}
+	res.Coverage["fresh_processes_reverse_file_order"] = reversedRuns
 	res.Evals = 0
 	res.Coverage["fresh_processes"] = procs
 	res.Coverage["fresh_process_programs"] = len(progs)
